@@ -46,7 +46,26 @@ func buildHosts(spec string, log *callLog) map[int]interface{} {
 // implEval evaluates text against the data (wire form) with the real evaluator.
 // Observation: outcome|final data map|host calls.  Oracle failures: C03 (panic / value-xor-error at
 // the public entry) are reported as strings.
+// implEval with a watchdog: an evaluation that does not return within 10 s is reported (C03: evaluation terminates)
 func implEval(text string, localOff int, hostSpec, dataWire string) (string, []string) {
+	type res struct {
+		obs   string
+		fails []string
+	}
+	ch := make(chan res, 1)
+	go func() {
+		o, f := implEvalInner(text, localOff, hostSpec, dataWire)
+		ch <- res{o, f}
+	}()
+	select {
+	case r := <-ch:
+		return r.obs, r.fails
+	case <-time.After(10 * time.Second):
+		return "T", []string{"evaluation did not terminate within 10 s: " + text}
+	}
+}
+
+func implEvalInner(text string, localOff int, hostSpec, dataWire string) (string, []string) {
 	var fails []string
 	setLocal(localOff)
 	src, err := formula.ParseSourceCode([]byte(text))
